@@ -55,6 +55,21 @@ def cases(tier, seed):
                     continue
                 out.append({"cls": "single", "table": tab, "p_f": p_f, "p_i": p_i_c, "nx": nx,
                             "grid": g, "n": n, "T": T, "sched": sc, "seed": seed})
+    # the two-phase class reaches the same solver through its own simulate(): scalar frac-face pressure only
+    for tab, ratio, nx, (g, n, T) in itertools.product(["T_ship_gas", "A_kink1e3"], [0.0125, 0.99875], nxs, GRIDS):
+        lo, hi = tables.table_range(tab)
+        if lo <= ratio * 8000.0:
+            out.append({"cls": "two", "table": tab, "p_f": ratio * 8000.0, "p_i": 8000.0, "nx": nx,
+                        "grid": g, "n": n, "T": T, "sched": "scalar", "seed": seed})
+    # long runs (the repository's own tests use 1200 levels): anything gated on the number of levels
+    for cls_, tab in (("ideal", None), ("single", "T_ship_gas")):
+        for g, n, T in (("quadratic", 1500, 3.0), ("uniform", 3000, 6.0)):
+            out.append({"cls": cls_, "table": tab, "p_f": 0.99875 * 8000.0 if cls_ == "single" else 1000.0, "p_i": 8000.0,
+                        "nx": 10, "grid": g, "n": n, "T": T, "sched": "scalar", "seed": seed})
+    # no drawdown at all: p_frac = p_initial is inside the quantifier (p_frac <= p_initial)
+    for tab in ("T_ship_gas", "A_kink1e3"):
+        out.append({"cls": "single", "table": tab, "p_f": 8000.0, "p_i": 8000.0, "nx": 10, "grid": "quadratic", "n": 40,
+                    "T": 4.0, "sched": "scalar", "seed": seed})
     out.sort(key=lambda c: (c["nx"] * c["n"], c["cls"] != "ideal"))  # simplest first
     return out
 
@@ -116,11 +131,13 @@ def evaluate(case):
         if decay < 1e-8:
             outcome.append("relaxed-horizon")
             gap = np.max(np.abs(u[-1] - m_f[0]))
-            if gap > 1e-3 * (m_i - m_f[0]):
+            # the rigorous bound on what can be left, plus rounding of the solve (measured gaps 3e-12 .. 2e-14)
+            allowed = max(100 * decay, 1e-9) * (m_i - m_f[0]) + 1e3 * tol
+            if gap > allowed:
                 viol.append(V("relaxation", f"after a horizon with rigorous decay bound {decay:.2g} the profile "
                               f"is still {gap / (m_i - m_f[0]):.4g} drawdowns from the frac-face value "
-                              f"(grid {case['grid']})", case=case, observed=float(gap / (m_i - m_f[0])),
-                              expected=0.0, tol=1e-3))
+                              f"(grid {case['grid']}; allowed {allowed / (m_i - m_f[0]):.3g})", case=case,
+                              observed=float(gap / (m_i - m_f[0])), expected=0.0, tol=float(allowed / (m_i - m_f[0]))))
     if draw / abs(m_i) < 0.02:
         outcome.append("ratio-near-1")
     return {"violations": viol, "states": n, "transitions": n - 1, "outcome": outcome,
